@@ -1,5 +1,6 @@
 """C09 (one clause): reads past the end are refused - every public indexed accessor compares the index
 with the logical length before any unchecked access. Width/strategy/delta arithmetic is NOT decided."""
+from vlib import fixtures
 from props import _refusal_common as rc
 
 FILES = ['src/containers/specialized/int_vec.rs', 'src/containers/specialized/int_vec/int_vec_simd.rs',
@@ -9,6 +10,7 @@ FILES = ['src/containers/specialized/int_vec.rs', 'src/containers/specialized/in
 
 def run(ctx):
     fx = ctx.facts("default")
+    fixtures.run(ctx, ['taint'])
     rc.accessors(ctx, fx, FILES, r'^(get|get2|get_block|set|get_unchecked_checked|at)$', "R-GUARD.refusal")
     ctx.floor("R-GUARD.refusal.accessors", 6)
     rc.unsafe_sinks(ctx, fx, FILES, "R-GUARD")
